@@ -330,6 +330,36 @@ theorem opd_core (φ : D → Elem) (A : PyData D V → B → StData → Prop)
     have i236 : (c : Int) ≠ 236 := by omega
     have i237 : (c : Int) ≠ 237 := by omega
     simp [Coder.process_operator_descriptor, h1, h2, Corr, exc_pure, exc_bind_ok, exc_bind_error, excClass, *]
+/-- `CoderState.add_bitmap_link` against `nextBitmapped` (statement: `C07_src_add_bitmap_link`) -/
+theorem add_bitmap_link_corr (φ : D → Elem) (ps : CoderState.Self D V) (s : St) (h : Rep φ ps s.regs) :
+    match CoderState.add_bitmap_link ps, nextBitmapped s with
+    | .ok ps', .ok ((owner, e), s2) =>
+      ∃ i d rest, ps.next_bitmapped_descriptor = some ((i, d) :: rest) ∧ owner = i.toNat ∧ e = φ d ∧
+        ps' = { ps with next_bitmapped_descriptor := some rest,
+                        bitmap_links := Py.dictSetItem ps.bitmap_links (ps.decoded_descriptors.length : Nat) i } ∧
+        Rep φ ps' s2.regs ∧ s2.data = s.data
+    | .error e, .error e' => excClass e = e'
+    | _, _ => False := by
+  obtain ⟨hwf, nr, hr, href⟩ := h
+  have hit : s.regs.bmIter = ps.next_bitmapped_descriptor.map (pairsOf φ) := by rw [hr]; rfl
+  cases hn : ps.next_bitmapped_descriptor with
+  | none =>
+    simp [CoderState.add_bitmap_link, nextBitmapped, hn, hit, Py.callNext, excClass, bind, Except.bind]
+  | some l =>
+    cases l with
+    | nil =>
+      simp [CoderState.add_bitmap_link, nextBitmapped, hn, hit, Py.callNext, excClass, bind, Except.bind, pairsOf]
+    | cons p rest =>
+      obtain ⟨i, d⟩ := p
+      simp only [CoderState.add_bitmap_link, nextBitmapped, hn, hit, Py.callNext, bind, Except.bind, pure, Except.pure,
+        pairsOf, Option.map, List.map]
+      refine ⟨i, d, rest, rfl, rfl, rfl, rfl, ⟨?_, nr, ?_, href⟩, rfl⟩
+      · exact hwf
+      · simp only [St.setRegs]
+        rw [hr]
+        simp [regsOf, pairsOf]
+
+
 /-! ### for the satisfiability examples -/
 
 /-- primitives that always fail with `other` (for the satisfiability examples) -/
